@@ -1,10 +1,28 @@
 #!/bin/bash
-# Offline setup: nothing to fetch. Warm the Kani build caches of the two crates from /repo.
+# Offline setup: nothing to fetch. Pre-builds the Kani target directories of the quick-tier units
+# (one per unit: dependencies + the crate itself), so that a quick check only recompiles the crates
+# of /repo whose sources changed. Failures here are not fatal: every check rebuilds what it needs.
 set -u
 cd "$(dirname "$0")"
 mkdir -p .cache/out evidence replay
 export CARGO_NET_OFFLINE=true
-for c in aldrin-core aldrin-broker; do
-  (cd /repo && cargo kani -p $c --target-dir /verif/.cache/$c -Z unstable-options -Z stubbing --only-codegen --harness zz_warmup_no_such_harness >/verif/.cache/out/setup-$c.log 2>&1) || true
-done
-echo "setup done"
+python3 - <<'PY' > .cache/setup-units.txt
+import sys
+sys.path.insert(0, "/verif")
+from props import PROPS
+seen = []
+for pid, p in PROPS.items():
+    for crate, unit in p["units"]["quick"]:
+        if (crate, unit) not in seen:
+            seen.append((crate, unit))
+for crate, unit in seen:
+    print(crate, unit)
+PY
+N=0
+while read -r crate unit; do
+  ( ./check --warm "$crate" "$unit" > ".cache/out/setup-$crate-$unit.log" 2>&1 || true ) &
+  N=$((N+1))
+  if [ $((N % 4)) -eq 0 ]; then wait; fi
+done < .cache/setup-units.txt
+wait
+echo "setup done ($N units warmed)"
